@@ -1857,9 +1857,21 @@ stream_decoder_mt_memconfig(void *coder_ptr, uint64_t *memusage,
 	// and stays there. Like the single-threaded decoder, report how
 	// much memory is needed to continue so that lzma_memusage() is
 	// useful for raising the limit with lzma_memlimit_set().
+	//
+	// The same amount is needed in SEQ_BLOCK_DIRECT_INIT, and
+	// mem_next_block in SEQ_BLOCK_THR_INIT: the limits were checked
+	// in SEQ_BLOCK_INIT but the memory hasn't been allocated yet.
+	// Counting it here prevents lzma_memlimit_set() from lowering
+	// the limits below what the already-accepted Block needs.
+	uint64_t mem_pending = 0;
 	if (coder->sequence == SEQ_BLOCK_INIT
-			&& *memusage < coder->mem_next_filters)
-		*memusage = coder->mem_next_filters;
+			|| coder->sequence == SEQ_BLOCK_DIRECT_INIT)
+		mem_pending = coder->mem_next_filters;
+	else if (coder->sequence == SEQ_BLOCK_THR_INIT)
+		mem_pending = coder->mem_next_block;
+
+	if (*memusage < mem_pending)
+		*memusage = mem_pending;
 
 	// If no filter chains are allocated, *memusage may be zero.
 	// Always return at least LZMA_MEMUSAGE_BASE.
